@@ -206,7 +206,7 @@ func main() {
 	fmt.Fprintf(os.Stderr, "c10: exhaustive part submitted (%d cases)\n", submitted)
 
 	// ---- part 2: random programs over random in-memory backing states ----
-	nMem := r.N(120000, 2000000)
+	nMem := r.N(120000, 1500000)
 	for lo := 0; lo < nMem; lo += 1000 {
 		lo, hi := lo, lo+1000
 		if hi > nMem {
